@@ -20,7 +20,7 @@ import numpy as np
 ID = "C20"
 FLAVOUR = "plain"
 LEVEL = "fault_enumeration"
-EXHAUSTIVE = True
+EXHAUSTIVE = False   # call sequences are enumerated completely, input sets and (wrapper, behaviour) pairing of length-3 sequences are not
 RULE = (
     "enumeration: every call sequence of length <= 3 (quick) / <= 4 (thorough) over the wrapper API alphabet "
     "{start, join, join(timeout), cancel, get_app_state, setter, get_command, get_exit_code, get_stdout, get_alignment, "
